@@ -124,6 +124,45 @@ def run(ctx):
                                lambda cell, n=n, xty=xty: [px_arg(xty, n, cell[0][0], cell[0][1], 0)],
                                [cells], sp(px), 32, gargs=g, flat=flat1, key_label='%s::%s' % (xty.name, nm))
                 tot += decided(st)
+    # R10 with one symbolic operand on the generic-width kernels (same families as C01 / C05): PxE2 for + - * / and the fused family, PxE1 for * /
+    # (PxE1's + - and fused kernels are known to be wrong - see the known findings - and are left to the R2 cells above)
+    import rules_rounding as RR
+    ctx.trusted += [t_ for t_ in RR.TRUSTED if t_ not in ctx.trusted]
+    ctx.rules.append('R10 (one symbolic operand) on PxE2<N> + - * / mul_add family and PxE1<N> * / for N in {8, 32} (thorough: {8, 16, 32})')
+    tasks = []
+    widths = (8, 16, 32) if ctx.tier == 'thorough' else (8, 32)
+    for xty in XTYS:
+        for n in widths:
+            fmt = RR.Fmt('%s<%d>' % (xty.name, n), n, xty.es, xty.tykey, pad=32 - n, gargs={'N': n})
+            maxs = (n - 2) << xty.es
+            sc = list(range(-maxs, maxs))
+            if n == 32:
+                sc = [s_ for s_ in sc if s_ % 4 in (0, 3) and (ctx.tier == 'thorough' or (s_ >> 2) % 4 == 0)]
+            elif n == 16 or ctx.tier == 'quick':
+                sc = sc[::2]
+            chunk = 6
+            if xty is PX2:
+                for opn, tr in (('add', 'core::ops::Add'), ('sub', 'core::ops::Sub')):
+                    path, _ = prog.find_impl_method(tr, xty.tykey, opn)
+                    if path:
+                        for i in range(0, len(sc), chunk):
+                            tasks.append((RR.check_add, ('R10', '%s::%s' % (xty.name, opn), path, fmt, False), dict(scales=sc[i:i + chunk], op=opn)))
+                            tasks.append((RR.check_add, ('R10', '%s::%s' % (xty.name, opn), path, fmt, False), dict(scales=sc[i:i + chunk], op=opn, swap=True, negative=True)))
+                for fname in TER:
+                    path = prog.inherent(xty.tykey, fname)
+                    if path:
+                        for i in range(0, len(sc), chunk):
+                            for v in range(len(RR.FMA_VARIANTS[fname])):
+                                tasks.append((RR.check_fma, ('R10', '%s::%s' % (xty.name, fname), path, fmt, fname, v, False), dict(scales=sc[i:i + chunk][::2], t=0 if v else -3)))
+            tsel = {8: [-9, -2, 0, 1, 5], 16: [-30, -7, 0, 3, 21], 32: [-100, -17, 0, 8, 77]}[n]
+            for opn, tr in (('mul', 'core::ops::Mul'), ('div', 'core::ops::Div')):
+                path, _ = prog.find_impl_method(tr, xty.tykey, opn)
+                if path:
+                    for t_ in tsel:
+                        tasks.append((RR.check_mul_pow2, ('R10', '%s::%s' % (xty.name, opn), path, fmt, opn, 'bc', False, [t_]), {}))
+    st_ = RR.run_parallel(ctx, prog, tasks)
+    ctx.count('one_symbolic_operand_cells', st_['cells'])
+    ctx.count('one_symbolic_operand_cells_proved', st_['proved'])
     # selector dependence of the two generic kernels
     ks = 0
     for xty in XTYS:
